@@ -1109,7 +1109,15 @@ fn run_scenario(mut s: Scn, thorough: bool, start: i32) -> Report {
     let mut seen: HashSet<Vec<Fault>> = HashSet::new();
     let light = s.light;
     // argument-domain variants: quick tier stops after the fault-free case and the drop
-    let singles = if light == 2 && !thorough { Vec::new() } else { points(&base) };
+    let mut singles = if light == 2 && !thorough { Vec::new() } else { points(&base) };
+    // a scenario with thousands of calls (removing a tree 2 000 levels deep) times every answer of every call is
+    // quadratic: fail every call in the first and the last 64 positions only, and say so
+    const SINGLE_WINDOW: usize = 64;
+    if n > 8 * SINGLE_WINDOW {
+        let before = singles.len();
+        singles.retain(|f| f.child || f.k < SINGLE_WINDOW || f.k + SINGLE_WINDOW >= n);
+        r.cap(format!("{name}: {n} parent-side calls; single deviations enumerated for the first and last {SINGLE_WINDOW} call positions only ({} of {before})", singles.len()));
+    }
     // other start states: fault-free + every single deviation in the quick tier, everything in the thorough tier
     let do_pairs = n <= PAIR_BOUND && (start == 0 || thorough) && match light {
         0 => true,
